@@ -1271,6 +1271,7 @@ ensures
     // accepting with a non-accepting state); group 0 holds the start state; no more states than before
     minimized(dfa, r), r.states@.len() <= dfa.states@.len(),
     r.terminal_ids == dfa.terminal_ids, r.lookaheads == dfa.lookaheads, r.patterns == dfa.patterns,
+    min_of(dfa, r),   // the same, as one predicate (what the callers in U-elim quote)
 """,
     edits=TRACE + [
         Ins('body_start', None, """
@@ -1505,6 +1506,7 @@ impl<T> std::ops::IndexMut<StateID> for Vec<T> {
         Struct(F_DFA, 'CompiledDfa', derive=[]),
         RawFile(os.path.join(HERE, '..', 'common', 'clsf.rs'), 'clsf.rs'),
         RawFile(os.path.join(HERE, '..', 'common', 'sort_specs.rs'), 'sort_specs.rs'),
+        RawFile(os.path.join(HERE, '..', 'common', 'dfa_lang.rs'), 'dfa_lang.rs'),
         RawFile('mini_spec.rs'),
         RawFile('mini_part.rs'),
         Raw('''
